@@ -11,7 +11,7 @@ def main():
         try:
             s(report)
         except tr_common.ExtractionError as e:
-            report.setdefault("errors", []).append(f"{getattr(s, "__name__", "step")}: {e}")
+            report.setdefault("errors", []).append(getattr(s, "__name__", "step") + ": " + str(e))
     print(json.dumps({k: v for k, v in report.items() if k != "modules"}))
     return report
 
